@@ -89,6 +89,13 @@ pub fn run_c12(cx: &Ctx) -> i32 {
             }
         }
     }
+    // references by numbers at the edges of the integer widths an implementation might parse them
+    // with: not a group of any capture set, so each is replaced by the empty string
+    for num in ["12", "99", "255", "256", "257", "65535", "65536", "4294967295", "4294967296", "4294967297", "9000000000", "9223372036854775807", "9223372036854775808", "18446744073709551615"] {
+        for form in ["\\N", "$N", "${N}", "\\g<N>", "x\\Nx", "x${N}x$1", "$Nx"] {
+            long_templates.push(form.replace('N', num));
+        }
+    }
     let n_long = long_templates.len();
     lens.push((usize::MAX, total, n_long));
     total += n_long;
@@ -196,8 +203,8 @@ pub fn run_c12(cx: &Ctx) -> i32 {
         t,
         Finish {
             rule: format!(
-                "all {} templates: every template of length <= {} over {:?} plus 3 144 long templates (an ASCII stretch of every length 0..130, a multi-byte character, a reference) x 5 capture sets (named, numbered with 11 groups, unmatched groups, digit-led names, multi-byte) x both expanders (default and Python-style) x 5 entry points (expansion, append_expansion, write_expansion, write_expansion_vec, Captures::expand) which must all agree; oracle: reference expander written from the documentation (frmc-core/src/expandref.rs); expansion(escape(s)) == s for every string of the same space; check accepts only templates all of whose references name an existing group; non-trivial = expansions that differ from the template",
-                total, max_len, ALPHA
+                "all {} templates: every template of length <= {} over {:?} plus {} long templates (an ASCII stretch of every length 0..130, a multi-byte character, a reference; references by numbers at the edges of the 8/16/32/64-bit widths in every reference syntax) x 5 capture sets (named, numbered with 11 groups, unmatched groups, digit-led names, multi-byte) x both expanders (default and Python-style) x 5 entry points (expansion, append_expansion, write_expansion, write_expansion_vec, Captures::expand) which must all agree; oracle: reference expander written from the documentation (frmc-core/src/expandref.rs); expansion(escape(s)) == s for every string of the same space; check accepts only templates all of whose references name an existing group; non-trivial = expansions that differ from the template",
+                total, max_len, ALPHA, n_long
             ),
             exhaustive: true,
             bounds: jobj! {"max_template_len" => max_len, "alphabet_size" => ALPHA.len(), "templates" => total},
